@@ -28,7 +28,7 @@ if ! CARGO_NET_OFFLINE=true cargo build --release --offline --config "paths=[\"$
 	echo "$name BUILD-FAILED"; tail -5 "$SCRATCH/build.log"; rm -rf "$SCRATCH"; exit 3
 fi
 for P in "$@"; do
-	out="$(VERIF_ROOT="$SCRATCH/verif" "$TARGET/release/hlv" check "$P" 2>&1)"; code=$?
+	out="$(VERIF_ROOT="$SCRATCH/verif" HLV_REPO="$SCRATCH/repo" "$TARGET/release/hlv" check "$P" 2>&1)"; code=$?
 	case $code in
 		1) echo "$name $P CAUGHT: $(echo "$out" | grep -A1 '^VIOLATION' | sed -n 2p | cut -c1-200)";;
 		0) echo "$name $P MISSED";;
